@@ -1056,6 +1056,57 @@ func up(t *lib.T) {
 	t.F += 1 // @ignore ALL
 	t.F -= 1 // wantat ../lib/lib.go:5 IMM02
 }
+
+// one-line top-level declarations below a directive: the comment trails the declaration's end
+//line store.tmpl:900
+var generatedDefault = lib.T{} // @ignore CTOR01
+var generatedNext = lib.T{} // wantat store.tmpl:901 CTOR01
+var generatedZero lib.T // @ignore CTOR
+//line up.go:3
+var low = new(lib.T) // @ignore CTOR02
+var low2 = new(lib.T) // wantat up.go:4 CTOR02
 `}}},
+	}}
+}
+
+// ImplTexts: two independent packages, each with several failing @implements annotations whose missing-method
+// signatures mention named types of the SAME package, of the other package's namesake, and of an imported one. The
+// text of every diagnostic is part of the observation: whatever a package's pass uses to print types must be its own.
+func ImplTexts() *prog.Program {
+	mk := func(name string) prog.Pkg {
+		return prog.Pkg{Path: "ex.com/m/" + name, Files: []prog.File{{Name: name + ".go", Src: "package " + name + `
+
+import "ex.com/m/lib"
+
+type Item struct{ N int }
+
+type Store interface {
+	Put(Item) error
+	Get(id int) (*Item, lib.Conf)
+}
+
+type Lister interface{ List() []Item }
+
+// A implements nothing of Store.
+// @implements Store
+// @implements &Lister
+type A struct{} // want IMPL03,IMPL03
+
+// B has Put with another parameter type.
+// @implements &Store
+type B struct{} // want IMPL03
+
+func (*B) Put(*Item) error { return nil }
+
+// C is fine.
+// @implements &Lister
+type C struct{}
+
+func (*C) List() []Item { return nil }
+`}}}
+	}
+	return &prog.Program{Pkgs: []prog.Pkg{
+		{Path: "ex.com/m/lib", Files: []prog.File{{Name: "lib.go", Src: "package lib\n\ntype Conf struct{ N int }\n"}}},
+		mk("pa"), mk("pb"), mk("pc"),
 	}}
 }
